@@ -80,6 +80,10 @@ def geom_stages(ctx, lazy=False):
                              per_step=16, p_lookup=0.35)
     from . import driver
     driver.stage_traces(ctx, "TraceData", n_traces=30 if ctx.quick() else 300, length=60 if ctx.quick() else 100)
+    # the deferred index maintenance under set-interface edits, with every answer judged (the twin comparison is C12's)
+    for n in ("LazySetI", "LazyMove"):
+        run_tlc_config(n, emit=True)
+        stages.stage_lazy(ctx, n, max_run=150)
 
 
 @plan("C05", "C06")
